@@ -230,6 +230,58 @@ def role_mismatch(rec, info, inst):
     return None
 
 
+def reader_angle_table(db):
+    """{AA code (info & 0x06): quarter turns} as read_oas decodes the compact PLACEMENT record: for each of the four codes, the constant
+    stored into the reference's rotation by the statement whose conditions hold for that info byte - case labels of a switch on
+    (info & 0x06), or comparisons of that value (also through a named local) in an if chain, evaluated with sa/minieval. 0 when
+    nothing is stored (the rotation of a fresh reference)."""
+    from .. import minieval as M
+    r = db.fn('gdstk::read_oas')
+    stores = [x for x in r.walk() if is_assign(x) and x.op == '=' and norm(x.child('lhs').text()).endswith('->rotation') and _strip_casts(x.child('rhs')) is not None
+              and not any(c.k in ('CallExpr', 'CXXMemberCallExpr') for c in x.child('rhs').walk())]
+    table = {}
+    for v in (0, 2, 4, 6):
+        hit = []
+        for st in stores:
+            ok = True
+            cur = st
+            for a in st.ancestors():
+                if a.k == 'SwitchStmt' and O.info_mask(a.child('cond')) == 0x06:
+                    arm = next((labels for labels, stmts, top in tables.switch_arms(a) if any(any(y is st for y in s_.walk()) for s_ in stmts)), None)
+                    ok = ok and arm is not None and v in arm
+                elif a.k == 'SwitchStmt':
+                    break       # the record dispatch: above it nothing depends on the angle code
+                elif a.k == 'IfStmt' and (cur is a.child('then') or cur is a.child('else')):
+                    c = a.child('cond')
+                    if not any(y.k == 'DeclRefExpr' and (y.n == 'info' or 'quadrant' in (y.n or '') or (y.dk == 'local' and (y.t or '').replace('const ', '').strip() in ('uint8_t', 'unsigned char', 'int', 'uint64_t'))) for y in c.walk()):
+                        cur = a
+                        continue
+                    if O.info_mask(c) is not None and O.info_mask(c) & 0x06 == 0:
+                        cur = a
+                        continue       # a test of another info bit
+                    try:
+                        val = M.Mini(db).ev(c, {'info': v})        # a test of the info byte itself
+                    except AnalysisBroken:
+                        try:
+                            val = M.value_at(db, c, env0={'info': v})      # ... or of a local computed from it
+                        except AnalysisBroken:
+                            cur = a
+                            continue
+                    ok = ok and (bool(val) == (cur is a.child('then')))
+                cur = a
+            if ok:
+                hit.append(st)
+        if len(hit) > 1:
+            raise AnalysisBroken('read_oas: several rotation stores apply to angle code %d' % v)
+        if hit:
+            rv = _strip_casts(hit[0].child('rhs'))
+            val = rv.fv if rv.fv is not None else float(M.Mini(db).ev(hit[0].child('rhs'), {}))
+            table[v] = val / 1.5707963267948966
+        else:
+            table[v] = 0
+    return table
+
+
 def check_writers(ctx, db):
     names = {c['v']: c['n'] for c in db.enum('gdstk::OasisRecord')['consts']}
     total = 0
@@ -287,14 +339,8 @@ def check_writers(ctx, db):
     ok = len(aa) == 2 and all('(3 & ' in norm(x.child('rhs').text()) for x in aa)
     ctx.check(ok, 'R-TABLE', 'write_oas/PLACEMENT-angle-code', w.loc(), 'AA = (m mod 4) in bits 1-2 (m quarter turns, negative m wrapped)')
     r = db.fn('gdstk::read_oas')
-    sw = [s for s in r.walk() if s.k == 'SwitchStmt' and O.info_mask(s.child('cond')) == 0x06]
-    got = {}
-    for s in sw:
-        for labels, stmts, top in tables.switch_arms(s):
-            a = next((norm(x.child('rhs').text()) for st in stmts for x in st.walk() if is_assign(x)), None)
-            for l in labels:
-                got[l] = a
-    ok = got == {2: '(3.141592653589793 * 0.5)', 4: '3.141592653589793', 6: '(3.141592653589793 * 1.5)'}
+    got = reader_angle_table(db)
+    ok = all(abs(got.get(c_, -1) - q_) < 1e-9 for c_, q_ in ((0, 0), (2, 1), (4, 2), (6, 3)))
     ctx.check(ok, 'R-TABLE', 'read_oas/PLACEMENT-angle-code', r.loc(), 'AA = 01/10/11 -> 90/180/270 degrees', 'angle table: %s' % got)
 
 
